@@ -1292,6 +1292,7 @@ func (d *descendantOverDescendantQuery) Select(t iterator) NodeNavigator {
 
 func (d *descendantOverDescendantQuery) Evaluate(t iterator) interface{} {
 	d.Input.Evaluate(t)
+	d.level = 0
 	return d
 }
 
@@ -1352,6 +1353,7 @@ func (m *mergeQuery) Select(t iterator) NodeNavigator {
 
 func (m *mergeQuery) Evaluate(t iterator) interface{} {
 	m.Input.Evaluate(t)
+	m.iterator = nil
 	return m
 }
 
